@@ -202,6 +202,9 @@ def judge(case, obs):
                 if s is None:
                     bad.append(("streamlimit", "%s emitted a STREAM frame for stream %d which we cannot send on" % (where, sid)))
                     continue
+                if s.local and hs and (sid >> 2) >= peer_max[(sid >> 1) & 1]:
+                    bad.append(("rejectsend", "%s emitted STREAM on locally opened stream %d (index %d) although the peer currently allows %d streams of that kind"
+                                % (where, sid, sid >> 2, peer_max[(sid >> 1) & 1])))
                 lim = s.limit
                 if off + ln > lim:
                     bad.append(("streamlimit", "%s emitted STREAM(sid %d, off %d, len %d): end %d exceeds the peer's limit %d for that stream (%s)"
@@ -216,7 +219,7 @@ def judge(case, obs):
             if not got_stream and a[0] >= 64 and not rejected:
                 for sid, s in ss.items():
                     if (s.handed and not s.dead and s.written > s.high and s.high < s.limit and fresh_total < peer_md
-                            and (s.local or hs)):
+                            and (s.local or hs) and not (s.local and (sid >> 2) >= peer_max[(sid >> 1) & 1])):
                         bad.append(("progress", "%s sent nothing although stream %d (%s) has %d unsent bytes, stream window %d > %d sent and connection credit %d > %d used"
                                     % (where, sid, kind_name(sid, role), s.written - s.high, s.limit, s.high, peer_md, fresh_total)))
                         break
@@ -369,7 +372,7 @@ def explain(name, a, role, adv_high, r, rcvd_total, adv_md):
 
 
 C12_CLAUSES = {"abnormal", "open", "accept", "direction", "finalsize", "implicit", "limitfp"}
-C11_CLAUSES = {"abnormal", "window", "streamlimit", "connlimit", "progress", "recvdetect", "recvaccept", "monotone"}
+C11_CLAUSES = {"abnormal", "window", "streamlimit", "connlimit", "progress", "recvdetect", "recvaccept", "monotone", "rejectsend"}
 
 
 def oracle_for(clauses):
